@@ -151,7 +151,11 @@ SetMaxCases == { [k |-> "setmax", v |-> v, via |-> x] : v \in FilterRanks, x \in
 \* (MAX_LEVEL is process-global state; `w` is published first, then `v`)
 SetMax2Cases == { [k |-> "setmax2", w |-> w, v |-> v] : w \in FilterRanks, v \in FilterRanks }
 
-Cases == {c \in CmpCases \cup SelCases \cup EnCases : WellKinded(c)}
+\* tracing-subscriber's LevelFilter used as a (global) layer on a Registry: what the stack answers for metadata of level l -
+\* enabled(), register_callsite() (0 never / 2 always) and the published hint
+LayerCases == { [k |-> "layer", l |-> l, f |-> f, q |-> q] : l \in LevelRanks, f \in FilterRanks, q \in {"enabled", "interest", "hint"} }
+
+Cases == {c \in CmpCases \cup SelCases \cup EnCases : WellKinded(c)} \cup LayerCases
          \cup ParseCases \cup {c \in PrintCases : c.v \in RanksOf(c.ty)}
          \cup {c \in ConvCases : c.v \in ConvDomain(c.f)} \cup SetMaxCases \cup SetMax2Cases
 
@@ -162,12 +166,18 @@ A(c) == CASE c.k = "cmp"   -> AOp(c.op, c.l, c.r)
           [] c.k = "conv"  -> c.v
           [] c.k = "setmax" -> c.v
           [] c.k = "setmax2" -> c.v
+          [] c.k = "layer" -> (CASE c.q = "enabled" -> AOp("enabled", c.l, c.f)
+                                 [] c.q = "interest" -> 2 * AOp("enabled", c.l, c.f)
+                                 [] c.q = "hint" -> c.f)
 M(c) == CASE c.k = "cmp"   -> MOp(c.op, c.l, c.r)
           [] c.k = "parse" -> MParse(c.ty, c.s)
           [] c.k = "print" -> APrint(c.ty, c.v)
           [] c.k = "conv"  -> Dec(Enc(c.v))
           [] c.k = "setmax" -> Dec(Enc(c.v))
           [] c.k = "setmax2" -> Dec(Enc(c.v))      \* set_max is an unconditional swap
+          [] c.k = "layer" -> (CASE c.q = "enabled" -> MOp("enabled", c.l, c.f)          \* `self >= metadata.level()`
+                                 [] c.q = "interest" -> 2 * MOp("enabled", c.l, c.f)
+                                 [] c.q = "hint" -> Dec(Enc(c.f)))
 
 (* ------------------------- enumeration as a spec ----------------------- *)
 VARIABLE case
